@@ -1228,6 +1228,57 @@ func TestC09(t *testing.T) {
 	<-stallDone
 	e.endPhase(ctx, "honest")
 
+	// ---- phase 1b: faults below the handler. A request for height c09panicBase+h is served through an
+	// accessor whose data methods panic. The client side is not what decides (how long a client waits
+	// is its own business): the server-side tap around the stream handler reports every handler that
+	// returned leaving its stream neither closed nor reset, and quiescence shows the accessor and the
+	// reserved memory released.
+	if on("honest") && !e.dead() {
+		var faults []*c09req
+		for i := range e.blocks {
+			b := &e.blocks[i]
+			if b.sq.Layout == "empty" || len(faults) >= 5*vkit.Scale(3, 12) {
+				continue
+			}
+			cases := c09honestCases(rng.SplitN("handler-fault", i), b)
+			seen := map[string]bool{}
+			for _, c := range cases {
+				if seen[c.proto] {
+					continue
+				}
+				seen[c.proto] = true
+				q := c.req()
+				var nsb []byte
+				if c.proto == c09pND {
+					nsb = c.ns.Bytes()
+				}
+				q.raw = c09enc(c.proto, c09panicBase+b.h, uint32(c.a), uint32(c.b), nsb)
+				q.op, q.class, q.why = "handler-fault", c09either, "accessor-panics"
+				faults = append(faults, q)
+			}
+		}
+		e.parallel(16, len(faults), func(i int) {
+			q := faults[i]
+			o := c09rawD(ctx, e.cl, e.srv, q.proto, q.raw, c09closeWrite, 40*time.Second)
+			run.Eval(1)
+			run.Count("handler-fault/requests/"+q.proto, 1)
+			run.Count("handler-fault/client-saw/"+o.label(), 1)
+			if o.kind == "ok" && o.perr == "" && c09checkPayload(q, o.payload) != "" {
+				run.Violation(fmt.Sprintf("C09 %s reply differs from the reference for the identifier the request decodes to (%s)", q.proto, "handler-fault"), e.witness(q, o, nil))
+			}
+		})
+		e.quiesce("handler-fault")
+		if st, err := e.child.stat(); err == nil {
+			run.Max("server/streams_handled", int(st.StreamsHandled))
+			if st.StreamsAbandoned > 0 {
+				run.Violation("C09 a request whose handling panicked was neither answered nor reset: the handler returned leaving the stream open [fault injected inside the block accessor]",
+					map[string]any{"abandoned_streams": st.StreamsAbandoned, "protocols": st.AbandonedProtocols, "streams_handled": st.StreamsHandled, "seed": vkit.Seed(),
+						"recovered_panics_logged": st.Panics})
+			}
+		}
+		e.endPhase(ctx, "handler-fault")
+	}
+
 	// ---- phase 2: every valid identifier of the exhaustive blocks as raw bytes
 	var valid []*c09req
 	nw4 := 0
